@@ -47,6 +47,16 @@ def _args_attrs(expr):
     return out
 
 
+def _builder_names(f):
+    out = set()
+    for n_ in ast.walk(f.node):
+        if isinstance(n_, (ast.Assign, ast.AnnAssign)) and isinstance(n_.value, ast.Call) and ast.unparse(n_.value.func).endswith("LanguageContextBuilder"):
+            tg = n_.targets[0] if isinstance(n_, ast.Assign) else n_.target
+            if isinstance(tg, ast.Name):
+                out.add(tg.id)
+    return out
+
+
 def rule_default_wrap(ctx, px):
     R = "R-C13-DEFAULT-WRAP"
     ctx.rule(
@@ -104,10 +114,12 @@ def rule_default_wrap(ctx, px):
     for st, gd in pyfront.walk_guarded(setter.node.body):
         if isinstance(st, ast.Assign) and "_target_language_config[" in ast.unparse(st.targets[0]):
             stores.append(pyfront.guard_terms(gd))
-    ok = bool(stores) and all(("value is not None", True) in t or ("value is None", False) in t for t in stores)
+    vparam = setter.node.args.args[2].arg if len(setter.node.args.args) > 2 else "value"
+    ok = bool(stores) and all((f"{vparam} is not None", True) in t or (f"{vparam} is None", False) in t for t in stores)
     ctx.ob(R, setter.module.rel, f"{setter.short} :: ignores None (an option not given on the command line)", ok, "", setter.node.lineno)
+    bnames = _builder_names(f)
     for c in ast.walk(f.node):
-        if isinstance(c, ast.Call) and isinstance(c.func, ast.Attribute) and ast.unparse(c.func.value) == "builder" \
+        if isinstance(c, ast.Call) and isinstance(c.func, ast.Attribute) and isinstance(c.func.value, ast.Name) and c.func.value.id in bnames \
                 and c.func.attr in ("set_target_language_configuration_override", "set_target_language_extension"):
             for a in c.args:
                 for x in _args_attrs(a):
@@ -155,15 +167,19 @@ def rule_order(ctx, px):
         ctx.ob(R, cr.module.rel, f"{cr.short} :: override merge is unconditional", not gd, "", ups[0].lineno)
     # CLI calls them in order: add_config_files before create; create is what is returned
     f = px.func(RUN_MOD, "ArgparseRunner._create_language_context")
+    bnames = _builder_names(f)
     calls = [(c.lineno, c.func.attr) for c in ast.walk(f.node) if isinstance(c, ast.Call) and isinstance(c.func, ast.Attribute)
-             and ast.unparse(c.func.value) == "builder"]
+             and isinstance(c.func.value, ast.Name) and c.func.value.id in bnames]
     names = [a for _, a in sorted(calls)]
     ok = "add_config_files" in names and names and names[-1] == "create"
     ctx.ob(R, f.module.rel, f"{f.short} :: builder.add_config_files(...) ... builder.create() last", ok, f"builder calls: {names}", f.node.lineno)
     acf_call = [c for c in ast.walk(f.node) if isinstance(c, ast.Call) and isinstance(c.func, ast.Attribute) and c.func.attr == "add_config_files"]
     if acf_call:
         a = acf_call[0]
-        ok = len(a.args) == 1 and isinstance(a.args[0], ast.Starred) and ast.unparse(a.args[0].value) == "additional_config_files"
+        ok = len(a.args) == 1 and isinstance(a.args[0], ast.Starred) and isinstance(a.args[0].value, ast.Name)
+        if ok:
+            vals = [n_.value for n_ in ast.walk(f.node) if isinstance(n_, ast.Assign) and any(isinstance(t_, ast.Name) and t_.id == a.args[0].value.id for t_ in n_.targets)]
+            ok = bool(vals) and all(ast.unparse(v_) in ("[]", "self._args.configuration", "[self._args.configuration]", "list(self._args.configuration)") for v_ in vals)
         ctx.ob(R, f.module.rel, f"{f.short} :: all --configuration files are passed, in command-line order", ok, "", a.lineno)
     # lazily loaded built-ins: config property
     lcl = px.cls("nunavut.lang._language", "LanguageClassLoader")
@@ -173,13 +189,14 @@ def rule_order(ctx, px):
     ctx.ob(R, cfgp.module.rel, f"{cfgp.short} :: built-in properties are loaded on first access, before anything is merged", ok, "", cfgp.node.lineno)
     # deep_update scalar assignment
     du = px.func(UTIL, "deep_update")
+    d_t, d_s, d_k, d_v = _deep_update_names(du)
     scalar_stores = []
     for st, gd in pyfront.walk_guarded(du.node.body):
         terms = pyfront.guard_terms(gd)
-        in_scalar_branch = any("isinstance(value" in e and "Mapping" in e and not p for e, p in terms)
+        in_scalar_branch = any(f"isinstance({d_v}" in e and "Mapping" in e and not p for e, p in terms)
         if in_scalar_branch:
             scalar_stores.append(st)
-    ok = len(scalar_stores) == 1 and "DefaultValue.assign_to_if_not_default(target, key, value)" in ast.unparse(scalar_stores[0])
+    ok = len(scalar_stores) == 1 and f"DefaultValue.assign_to_if_not_default({d_t}, {d_k}, {d_v})" in ast.unparse(scalar_stores[0])
     ctx.ob(R, du.module.rel, f"{du.short} :: scalars are assigned only through DefaultValue.assign_to_if_not_default", ok,
            "" if ok else "scalar branch: " + "; ".join(ast.unparse(s) for s in scalar_stores), du.node.lineno)
     # assign_to_if_not_default shape: returns early (keeps target) iff value is Default and existing is not
@@ -197,11 +214,25 @@ def rule_order(ctx, px):
     cpp = px.cls("nunavut.lang.cpp", "Language").methods["_validate_language_options"]
     ups = []
     for st, gd in pyfront.walk_guarded(cpp.node.body):
-        if isinstance(st, ast.Expr) and isinstance(st.value, ast.Call) and ast.unparse(st.value.func) == "options.update":
+        cps = [a_.arg for a_ in cpp.node.args.args if a_.arg != "self"]
+        if isinstance(st, ast.Expr) and isinstance(st.value, ast.Call) and len(cps) >= 2 and ast.unparse(st.value.func) == f"{cps[1]}.update":
             ups.append((st, pyfront.guard_terms(gd)))
-    ok = len(ups) == 1 and ast.unparse(ups[0][0].value.args[0]) == "defaults[language_standard]" and ups[0][1] == [("language_standard in defaults", True)]
+    ok = len(ups) == 1 and len(ups[0][0].value.args) == 1 and isinstance(ups[0][0].value.args[0], ast.Subscript) \
+        and ast.unparse(ups[0][0].value.args[0].value) == cps[0] and isinstance(ups[0][0].value.args[0].slice, ast.Name) \
+        and ups[0][1] == [(f"{ups[0][0].value.args[0].slice.id} in {cps[0]}", True)]
     ctx.ob(R, cpp.module.rel, f"{cpp.short} :: the standard's option group is applied as a unit (options.update(defaults[std]))", ok,
            "" if ok else "per-standard defaults are applied partially or conditionally", cpp.node.lineno)
+
+
+def _deep_update_names(du):
+    """(target param, source param, key loop var, value loop var) of deep_update"""
+    ps = [a.arg for a in du.node.args.args]
+    if len(ps) < 2:
+        raise AnalysisError("anchor changed: deep_update(target, source)")
+    for n_ in ast.walk(du.node):
+        if isinstance(n_, ast.For) and isinstance(n_.target, ast.Tuple) and len(n_.target.elts) == 2 and ast.unparse(n_.iter) == f"{ps[1]}.items()":
+            return ps[0], ps[1], n_.target.elts[0].id, n_.target.elts[1].id
+    raise AnalysisError("anchor changed: deep_update no longer iterates source.items()")
 
 
 def rule_group_unit(ctx, px, root):
@@ -245,19 +276,20 @@ def rule_ownership(ctx, px):
         "fresh loader and configuration (no module/class level configuration object, no cache on _load_config)",
     )
     du = px.func(UTIL, "deep_update")
+    d_t, d_s, d_k, d_v = _deep_update_names(du)
     n = 0
     for st, gd in pyfront.walk_guarded(du.node.body):
         terms = pyfront.guard_terms(gd)
         if isinstance(st, ast.Assign):
             tgt = ast.unparse(st.targets[0])
-            if not (tgt == "target" or tgt.startswith("target[")):
+            if not (tgt == d_t or tgt.startswith(f"{d_t}[")):
                 continue
             n += 1
             v = st.value
             vt = ast.unparse(v)
             if isinstance(v, ast.Call) and ast.unparse(v.func) == "deep_update":
                 a0 = ast.unparse(v.args[0]) if v.args else ""
-                ok = a0 in ("target.get(key, {})", "target[key]", "{}", "target.setdefault(key, {})")
+                ok = a0 in (f"{d_t}.get({d_k}, {{}})", f"{d_t}[{d_k}]", "{}", f"{d_t}.setdefault({d_k}, {{}})")
                 ctx.ob(R, du.module.rel, f"{du.short} :: {tgt} = deep_update({a0}, ...)", ok,
                        "recursion into a fresh or target-owned mapping" if ok else "recursion target may be source-owned", st.lineno)
             elif isinstance(v, ast.Call) and ast.unparse(v.func) in ("copy.deepcopy", "deepcopy"):
@@ -267,8 +299,8 @@ def rule_ownership(ctx, px):
                        "shallow copy of a source mapping: its nested maps are aliased into the merged configuration and "
                        "are mutated by later merges (the source document changes)", st.lineno)
             else:
-                src_derived = any(isinstance(x, ast.Name) and x.id in ("source", "value") for x in ast.walk(v))
-                scalar = any("isinstance(value" in e and "Mapping" in e and not p for e, p in terms)
+                src_derived = any(isinstance(x, ast.Name) and x.id in (d_s, d_v) for x in ast.walk(v))
+                scalar = any(f"isinstance({d_v}" in e and "Mapping" in e and not p for e, p in terms)
                 ok = (not src_derived) or scalar
                 ctx.ob(R, du.module.rel, f"{du.short} :: {tgt} = {vt}", ok,
                        "" if ok else "a source-side mapping is stored into the target by reference", st.lineno)
